@@ -220,8 +220,8 @@ Proof.
   destruct a as [|[|[|a]]]; [| | |lia]; simpl; rewrite C; reflexivity.
 Qed.
 
-Lemma write_shape orc tb s s' ev :
-  write_with orc fixed tb s = Ok s' ev ->
+Lemma write_shape orc c tb s s' ev :
+  write_with orc c tb s = Ok s' ev ->
   exists p, is_assembled (if is_assembled s then s else assemble tb s) = true
     /\ s' = with_lists (if is_assembled s then s else assemble tb s)
                        (verts (if is_assembled s then s else assemble tb s))
@@ -230,20 +230,21 @@ Lemma write_shape orc tb s s' ev :
 Proof.
   unfold write_with. set (s1 := if is_assembled s then s else assemble tb s). intro H.
   destruct (is_assembled s1) eqn:A; simpl in H; [|discriminate].
-  destruct (C12_Regrade.grade _ _ _ _ _) as [p| | | |]; try discriminate.
+  destruct (grade_cfg _ _ _ _ _) as [p| | | |]; try discriminate.
   inversion H. exists p. auto.
 Qed.
 
-(** a second write gives the same file and leaves the same state: for every block list (chopped by
-    the user or by propagation), every order of coincident wires / neighbour axes *)
-Theorem write_with_idempotent orc tb s s2 ev :
-  write_with orc fixed tb s = Ok s2 ev -> write_with orc fixed tb s2 = Ok s2 ev.
+(** the code BEFORE fixes/C12-4.diff (grade did not reset, [before_reset]): for count-only chops a second write
+    nevertheless gave the same file and left the same state - the second run re-wrote every wire with the value
+    it had (C12_Regrade.grade_twice); this is why the stale state only showed with expansions / moved vertices *)
+Theorem write_with_idempotent_before_reset orc tb s s2 ev :
+  write_with orc before_reset tb s = Ok s2 ev -> write_with orc before_reset tb s2 = Ok s2 ev.
 Proof.
-  unfold write_with. cbv zeta.
+  unfold write_with, grade_cfg. cbv zeta. cbn [fx_reset fx_grade before_reset].
   set (s1 := if is_assembled s then s else assemble tb s).
   destruct (is_assembled s1) eqn:A; simpl; [|discriminate].
   set (B := blocks s1). set (bs := map pblk B).
-  destruct (C12_Regrade.grade bs (fst (orc bs)) (snd (orc bs)) true (gstate B)) as [p| | | |] eqn:G;
+  destruct (C12_Regrade.grade_no_reset bs (fst (orc bs)) (snd (orc bs)) true (gstate B)) as [p| | | |] eqn:G;
     try discriminate.
   intro H. inversion H as [[Hs He]]. clear H.
   set (B2 := store_gr p B).
@@ -278,9 +279,68 @@ Proof.
   rewrite Est, A2. reflexivity.
 Qed.
 
+(** the REPAIRED code: grade resets first, so its result does not depend on what the blocks hold; a second
+    write gives the same file and leaves the same state - every block list (chopped by the user or by
+    propagation), every order of coincident wires / neighbour axes, every state before the first write *)
+Lemma store_gr_twice p B : store_gr p (store_gr p B) = store_gr p B.
+Proof.
+  transitivity (imap (fun i b => {| b_src := b_src b; b_verts := b_verts b; b_chops := b_chops b;
+                                    b_wg := C12_Regrade.tab_g p i;
+                                    b_ax := C12_Regrade.tab_a (map pblk B) p i |}) 0 (store_gr p B)).
+  { unfold store_gr at 1. rewrite pblk_store. reflexivity. }
+  unfold store_gr. rewrite imap_imap. apply imap_ext_in. intros j b _. reflexivity.
+Qed.
+
+Theorem write_with_idempotent orc tb s s2 ev :
+  write_with orc fixed tb s = Ok s2 ev -> write_with orc fixed tb s2 = Ok s2 ev.
+Proof.
+  unfold write_with, grade_cfg. cbv zeta. cbn [fx_reset fixed].
+  set (s1 := if is_assembled s then s else assemble tb s).
+  destruct (is_assembled s1) eqn:A; simpl; [|discriminate].
+  set (B := blocks s1). set (bs := map pblk B).
+  destruct (C12_Regrade.grade bs (fst (orc bs)) (snd (orc bs)) (gstate B)) as [p| | | |] eqn:G; try discriminate.
+  intro H. inversion H as [[Hs He]]. clear H.
+  set (B2 := store_gr p B).
+  set (s2' := with_lists s1 (verts s1) B2 (patches s1)).
+  assert (A2 : is_assembled s2' = true) by exact A.
+  rewrite A2. cbn [negb].
+  change (blocks s2') with B2. change (verts s2') with (verts s1). change (patches s2') with (patches s1).
+  assert (Ebs : map pblk B2 = bs) by apply pblk_store. rewrite Ebs.
+  (* the reset: what the blocks hold is irrelevant *)
+  rewrite (C12_Regrade.grade_state_independent bs (fst (orc bs)) (snd (orc bs)) (gstate B2) (gstate B)), G.
+  unfold B2. rewrite store_gr_twice. fold B2. rewrite A2. reflexivity.
+Qed.
+
 Theorem write_idempotent tb s s2 ev :
   write fixed tb s = Ok s2 ev -> write fixed tb s2 = Ok s2 ev.
 Proof. apply write_with_idempotent. Qed.
+
+(** what a write computes does not depend on the gradings the blocks hold (earlier writes, vertices moved in
+    between - positions are no input of grade in this model): replacing them by anything gives the same outcome *)
+Definition with_gradings (s : st) (G A : list (list (list nat))) : st :=
+  with_lists s (verts s)
+    (imap (fun i b => {| b_src := b_src b; b_verts := b_verts b; b_chops := b_chops b;
+                         b_wg := nth i G []; b_ax := nth i A [] |}) 0 (blocks s))
+    (patches s).
+
+Theorem write_forgets_gradings orc tb s G A :
+  is_assembled s = true -> write_with orc fixed tb (with_gradings s G A) = write_with orc fixed tb s.
+Proof.
+  intro As. unfold write_with, grade_cfg. cbv zeta. cbn [fx_reset fixed].
+  assert (A2 : is_assembled (with_gradings s G A) = true) by exact As.
+  rewrite A2, As. cbn [negb].
+  set (B2 := blocks (with_gradings s G A)).
+  assert (Ebs : map pblk B2 = map pblk (blocks s)).
+  { unfold B2, with_gradings. simpl. rewrite imap_map. apply (imap_snd pblk). }
+  rewrite Ebs. set (bs := map pblk (blocks s)).
+  rewrite (C12_Regrade.grade_state_independent bs (fst (orc bs)) (snd (orc bs)) (gstate B2) (gstate (blocks s))).
+  destruct (C12_Regrade.grade bs _ _ _) as [p| | | |]; try reflexivity.
+  assert (Est : store_gr p B2 = store_gr p (blocks s)).
+  { unfold store_gr at 1. rewrite Ebs. unfold B2, with_gradings, store_gr. simpl. rewrite imap_imap.
+    apply imap_ext_in. intros j b _. reflexivity. }
+  change (verts (with_gradings s G A)) with (verts s). change (patches (with_gradings s G A)) with (patches s).
+  rewrite Est. reflexivity.
+Qed.
 
 (** with the insertion-order oracle the model never reports [E_model] *)
 Theorem write_no_model_error c tb s : write c tb s <> Err E_model.
@@ -288,14 +348,22 @@ Proof.
   unfold write, write_with. cbv zeta.
   set (s1 := if is_assembled s then s else assemble tb s).
   destruct (is_assembled s1); simpl; [|discriminate].
-  set (bs := map pblk (blocks s1)). unfold C12_Regrade.grade.
-  rewrite (PropagateFinal.insertion_oracle_ok bs). simpl.
-  match goal with |- context [Propagate.propagate ?a ?b ?c ?d ?e ?f] =>
-    pose proof (PropagateTerm.propagate_terminates a b c e) as T;
-    destruct (Propagate.propagate a b c d e f) as [q| |] end.
-  - destruct (Propagate.consistent bs q); discriminate.
-  - discriminate.
-  - exfalso. apply T. reflexivity.
+  set (bs := map pblk (blocks s1)).
+  assert (N : forall fx q, match C12_Regrade.grade_no_reset bs (Propagate.o_coin_ins bs) (Propagate.o_nbrs_ins bs) fx q with
+                           | C12_Regrade.GNoFuel | C12_Regrade.GBadOracle => False | _ => True end).
+  { intros fx q. unfold C12_Regrade.grade_no_reset.
+    rewrite (PropagateFinal.insertion_oracle_ok bs). simpl.
+    match goal with |- context [Propagate.propagate ?a ?b ?c ?d ?e ?f] =>
+      pose proof (PropagateTerm.propagate_terminates a b c e) as T;
+      destruct (Propagate.propagate a b c d e f) as [r| |] end.
+    - destruct (Propagate.consistent bs r); exact I.
+    - exact I.
+    - apply T. reflexivity. }
+  unfold grade_cfg, C12_Regrade.grade. destruct (fx_reset c).
+  - specialize (N true (C12_Regrade.reset bs (gstate (blocks s1)))).
+    destruct (C12_Regrade.grade_no_reset _ _ _ _ _); try discriminate; exact (False_ind _ N).
+  - specialize (N (fx_grade c) (gstate (blocks s1))).
+    destruct (C12_Regrade.grade_no_reset _ _ _ _ _); try discriminate; exact (False_ind _ N).
 Qed.
 
 (** * backport *)
@@ -382,7 +450,7 @@ Proof.
   - inversion H. subst. simpl. rewrite clear_patches_fixed. apply modded_mods. exact M.
   - inversion H. subst. simpl. simpl in Hm. apply modded_modify_other; [|exact M].
     intro E. subst. rewrite Nat.eqb_refl in Hm. discriminate.
-  - destruct (write_shape _ _ _ _ _ H) as [p [_ Hs]]. subst s'. simpl.
+  - destruct (write_shape _ _ _ _ _ _ H) as [p [_ Hs]]. subst s'. simpl.
     destruct (is_assembled s); [exact M|apply assemble_modded; exact M].
 Qed.
 
@@ -430,7 +498,7 @@ Proof.
         rewrite orb_false_r. reflexivity.
       - inversion S. subst. destruct (assemble_user tb s) as [A [_ [B _]]]. rewrite A, B, app_nil_r. auto.
       - destruct (backport_user _ _ _ _ S) as [A B]. rewrite A, app_nil_r. auto.
-      - destruct (write_shape _ _ _ _ _ S) as [p [_ Hs]]. subst s1. simpl.
+      - destruct (write_shape _ _ _ _ _ _ S) as [p [_ Hs]]. subst s1. simpl.
         destruct (is_assembled s); rewrite ?app_nil_r; auto.
         destruct (assemble_user tb s) as [A [_ [B _]]]. rewrite A, B. auto. }
     destruct Q as [Qd Qx]. split.
